@@ -353,8 +353,11 @@ TCorruptProbe ==
                             ELSE v = final[k])
          staleVal(k, v) == v \in EverHad(k)
          gotAll == [k \in Keys |-> <<Ev.gets[k], Ev.gets2[k]>>]
-         badKeys == {k \in Keys : ~okVal(k, Ev.gets[k]) \/ ~okVal(k, Ev.gets2[k])}
+         \* (third round: after a manual compaction that had the damaged file among its inputs)
+         g3 == IF "gets3" \in DOMAIN Ev THEN Ev.gets3 ELSE [k \in Keys |-> -1]
+         badKeys == {k \in Keys : ~okVal(k, Ev.gets[k]) \/ ~okVal(k, Ev.gets2[k]) \/ ~okVal(k, g3[k])}
          onlyStaleGets == \A k \in badKeys : staleVal(k, Ev.gets[k]) /\ staleVal(k, Ev.gets2[k])
+                                              /\ (g3[k] = -1 \/ staleVal(k, g3[k]))
          ordered(sq, rev) == \A i \in 1..(Len(sq) - 1) :
                                IF rev THEN sq[i][1] > sq[i + 1][1] ELSE sq[i][1] < sq[i + 1][1]
          inKeys(sq) == \A i \in 1..Len(sq) : sq[i][1] \in Keys
@@ -370,7 +373,8 @@ TCorruptProbe ==
             ELSE "wrong"
          worst(a, b) == IF "wrong" \in {a, b} THEN "wrong" ELSE IF "stale" \in {a, b} THEN "stale"
                         ELSE IF "incomplete" \in {a, b} THEN "incomplete" ELSE "ok"
-         sc == worst(scanClass(Ev.fwdok, Ev.fwd, FALSE), scanClass(Ev.bwdok, Ev.bwd, TRUE))
+         sc == worst(worst(scanClass(Ev.fwdok, Ev.fwd, FALSE), scanClass(Ev.bwdok, Ev.bwd, TRUE)),
+                     IF "fwd3" \in DOMAIN Ev THEN scanClass(Ev.fwd3ok, Ev.fwd3, FALSE) ELSE "ok")
          det == [keys |-> <<Ev.n, Ev.off, Ev.mode>>, at |-> 0]
          sfx == ("_" \o Ev.kind) \o (IF Ev.field = "any" THEN "" ELSE "_" \o Ev.field)
          v0 == IF Ev.hang THEN ObsViol(<<"C15", "C09">>, "CorruptionHang" \o sfx, det) ELSE <<>>
